@@ -513,6 +513,15 @@ func (p *Prog) cursorLoop(fn *ssa.Function, l *Loop) (loopClass, bool) {
 			switch {
 			case callees[0] == cur.G && len(call.Call.Args) == 2:
 				obj, arg = call.Call.Args[0], call.Call.Args[1]
+			case callees[0] != cur.G && len(call.Call.Args) >= 1 && p.readerHelperConsumes(cur, callees[0], 0):
+				// a helper of the reader that, on every path, reads a value of width >= 1 through the guarded
+				// primitive (`f, err := b.getTopicFilter()`)
+				k := pr.key(call.Call.Args[0])
+				if getBlocks[k] == nil {
+					getBlocks[k] = map[*ssa.BasicBlock]bool{}
+				}
+				getBlocks[k][b] = true
+				continue
 			case callees[0].Synthetic != "" && len(callees[0].FreeVars) == 1 && len(call.Call.Args) == 1:
 				// bound method value of G
 				isG := false
@@ -555,12 +564,23 @@ func (p *Prog) cursorLoop(fn *ssa.Function, l *Loop) (loopClass, bool) {
 		if !ok || (bo.Op != token.NEQ && bo.Op != token.EQL) || !isNilConst(bo.Y) {
 			continue
 		}
-		ld, ok := bo.X.(*ssa.UnOp)
-		if !ok || ld.Op != token.MUL {
-			continue
+		var base ssa.Value
+		if ld, ok := bo.X.(*ssa.UnOp); ok && ld.Op == token.MUL {
+			if bb, ok := cur.isField(ld.X, cur.E); ok {
+				base = bb
+			}
 		}
-		base, ok := cur.isField(ld.X, cur.E)
-		if !ok {
+		// … or the error a helper of the reader hands back as the reader's own
+		if ex, ok := bo.X.(*ssa.Extract); ok && base == nil {
+			if hc, ok := ex.Tuple.(*ssa.Call); ok {
+				if sc := hc.Call.StaticCallee(); sc != nil {
+					if k := p.helperReturnsSticky(cur, sc, ex.Index, 0); k >= 0 && k < len(hc.Call.Args) {
+						base = hc.Call.Args[k]
+					}
+				}
+			}
+		}
+		if base == nil {
 			continue
 		}
 		errSucc := 0
@@ -647,4 +667,63 @@ func (p *Prog) loopsIn(fns map[*ssa.Function]bool) []namedLoop {
 		}
 	}
 	return out
+}
+
+// readerHelperConsumes: h is a method of the sequential reader (first parameter) that, on every path to a return,
+// reads a value of width >= 1 through the guarded primitive, stores a non-nil error, or calls a helper that does.
+func (p *Prog) readerHelperConsumes(cur *Cursor, h *ssa.Function, depth int) bool {
+	if h == nil || len(h.Blocks) == 0 || depth > 3 || !p.inMQ(h) || len(h.Params) == 0 || len(AllLoops(h)) > 0 {
+		return false
+	}
+	pt, ok := h.Params[0].Type().Underlying().(*types.Pointer)
+	if !ok || !types.Identical(pt.Elem(), cur.T) {
+		return false
+	}
+	key := "rhc:" + qname(h)
+	if v, ok := p.cache[key]; ok {
+		return v.(bool)
+	}
+	p.cache[key] = false
+	hpr := NewProver(p, h)
+	done := map[*ssa.BasicBlock]bool{}
+	for _, b := range h.Blocks {
+		for _, ins := range b.Instrs {
+			switch x := ins.(type) {
+			case *ssa.Call:
+				callees, _ := p.CG().Callees(x)
+				if len(callees) != 1 || len(x.Call.Args) == 0 || x.Call.Args[0] != ssa.Value(h.Params[0]) {
+					continue
+				}
+				if callees[0] == cur.G && len(x.Call.Args) == 2 {
+					if mi, ok := x.Call.Args[1].(*ssa.MakeInterface); ok && p.widthLower(mi.X.Type()) >= 1 {
+						done[b] = true
+					}
+				} else if callees[0] != cur.G && p.readerHelperConsumes(cur, callees[0], depth+1) {
+					done[b] = true
+				}
+			case *ssa.Store:
+				if bb, ok := cur.isField(x.Addr, cur.E); ok && bb == ssa.Value(h.Params[0]) && hpr.NonNil(x.Val, b, 0) {
+					done[b] = true
+				}
+			}
+		}
+	}
+	res := true
+	seen := map[*ssa.BasicBlock]bool{}
+	var dfs func(b *ssa.BasicBlock)
+	dfs = func(b *ssa.BasicBlock) {
+		if seen[b] || done[b] {
+			return
+		}
+		seen[b] = true
+		if _, isRet := terminator(b).(*ssa.Return); isRet {
+			res = false
+		}
+		for _, sc := range b.Succs {
+			dfs(sc)
+		}
+	}
+	dfs(h.Blocks[0])
+	p.cache[key] = res
+	return res
 }
